@@ -57,6 +57,19 @@ def gen_case(rng):
         q = gen_gap_case(rng)
         if q is not None:
             return q
+    if rng.random() < 0.08:
+        # uncoupled although periodic: a periodic contract whose periodicity_duration equals the split size (durations and intervals both count from the
+        # horizon start), next to ordinary contracts
+        g = gen.gen_grid(rng, freqs=['h'], steps=(30, 60), hour_offsets=(0, 6, 3), tzs=[None, 'Asia/Kolkata'], anchors=['2021-01-10', '2020-12-30', '2021-06-29'])
+        spec = gen.gen_lp_portfolio(rng, g=g, types=('contract', 'transport', 'multi'), n_assets=(1, 3), n_nodes=(1, 2))
+        for a in spec['assets']:
+            a.pop('min_take', None); a.pop('max_take', None)
+        per, dur = gen.pick(rng, [('4h', '12h'), ('6h', '24h'), ('4h', '1d'), ('4h', 'd'), ('6h', 'd')])
+        f = gen.UNIT_F[g['unit']]
+        pe = gen.gen_contract(rng, g, 'pe', spec['assets'][0]['nodes'][0], f, sorted(spec['prices'])[0], window=False, take=False, dict_caps=False)
+        pe['periodicity'] = per; pe['periodicity_duration'] = dur; pe['wacc'] = 0.
+        spec['assets'].append(pe)
+        return gen.strip_private(spec), 'uncoupled', dur
     cls = gen.pick(rng, ['uncoupled', 'uncoupled', 'storage', 'storage', 'general'])
     long_h = rng.random() < 0.2
     if long_h:
@@ -157,6 +170,11 @@ def run_case(rng, tier, case):
     if mon_balance_output(case, rs.built.portfolio, rs.out, clause='split.balance_on_original_grid') is False and rs.out.get('dispatch') is None:
         pass
     transferable = cls in ('uncoupled', 'storage')
+    if ru.ok and not transferable:
+        # WHERE the assets act is the same with and without the split, whatever couples the intervals
+        cells_ = lambda m_: set(zip(m_['asset'].astype(str), m_['node'].astype(str), m_['time_step'].astype(int)))
+        cu = cells_(ru.op.mapping); cs_ = cells_(ms)
+        case.check('split.rows_match_unsplit', cu == cs_, nonvacuous=n_int >= 2, only_unsplit=sorted(cu - cs_)[:4], only_split=sorted(cs_ - cu)[:4])
     if transferable and ru.ok:
         su = Snap(ru.op)
         ku = row_key(su.mapping); ks = row_key(ms)
